@@ -737,3 +737,96 @@ def _poll_map(m, args, ci):
     if p.variant == 'Pending':
         return p
     return ready(m.call_closure(args[1], [p.fields[0]]))
+
+# =======================================================================================================
+# further tokio / futures contracts (found useful by the refactoring sweeps)
+# =======================================================================================================
+class TimeoutFut:
+    """tokio::time::timeout(d, fut): Ok(output) if fut completes first, Err(Elapsed) once the timer fired (the timer is
+    an ordinary environment-fired Timer: it can fire only after it was armed by a poll)."""
+    def __init__(self, timer, fut):
+        self.timer = timer
+        self.fut = Cell(fut)
+    def poll(self, m, ref, cx):
+        r = poll_value(m, Ref(self.fut, 'v'), cx)
+        if is_variant(r, 'Ready'):
+            self.timer.dropped = True
+            return ready(ok(r.fields[0]))
+        t = self.timer.poll(m, ref, cx)
+        if is_variant(t, 'Ready'):
+            return ready(err(Adt('tokio::time::error::Elapsed', None, {})))
+        return pending()
+    def on_drop(self, m):
+        self.timer.dropped = True
+        m.drop_value(self.fut.v)
+
+@I.rx(r'^tokio::time::timeout$|^tokio::time::timeout::timeout$')
+def _timeout(m, args, ci):
+    from .lib_std import dur_ns
+    t = Timer(dur_ns(args[0]), 'timer%d' % len(m.st.timers))
+    t.created_by = sched(m).cur
+    m.st.timers.append(t)
+    m.event('timer_created', t.label, sched(m).cur, t.dur, tuple(mutex_held_by(m, sched(m).cur)))
+    return TimeoutFut(t, args[1])
+
+class YieldFut:
+    def __init__(self):
+        self.done = False
+    def poll(self, m, ref, cx):
+        if self.done:
+            return ready(unit())
+        self.done = True
+        sched(m).self_wake = True
+        return pending()
+
+@I.rx(r'^tokio::task::yield_now$|^tokio::task::yield_now::yield_now$')
+def _yield_now(m, args, ci):
+    return YieldFut()
+
+@I.rx(r'^(tokio::sync::)?Mutex::try_lock$|^tokio::sync::mutex::Mutex::try_lock$')
+def _mutex_try_lock(m, args, ci):
+    mx = deref_val(args[0])
+    s = sched(m)
+    if mx.locked_by is None:
+        mx.locked_by = s.cur
+        m.event('lock', s.cur, mx.label)
+        return ok(Guard(mx))
+    return err(Adt('tokio::sync::TryLockError', None, {}))
+
+@I.rx(r'^(tokio::sync::)?mpsc::(bounded::)?Sender::is_closed$')
+def _mpsc_is_closed(m, args, ci):
+    return not deref_val(args[0]).ch.rx_alive
+
+class JoinAllFut:
+    """futures::future::join_all / try_join_all: polls every unfinished member on each poll, in order."""
+    def __init__(self, futs, try_):
+        self.cells = [Cell(f) for f in futs]
+        self.out = [None] * len(futs)
+        self.try_ = try_
+    def poll(self, m, ref, cx):
+        for i, c in enumerate(self.cells):
+            if self.out[i] is not None:
+                continue
+            r = poll_value(m, Ref(c, 'v'), cx)
+            if is_variant(r, 'Ready'):
+                v = r.fields[0]
+                if self.try_ and is_variant(v, 'Err'):
+                    return ready(v)
+                self.out[i] = (v.fields[0] if self.try_ else v,)
+        if all(o is not None for o in self.out):
+            res = Seq([o[0] for o in self.out], 'vec')
+            return ready(ok(res) if self.try_ else res)
+        return pending()
+
+@I.rx(r'(^|::)(join_all|try_join_all)$')
+def _join_all(m, args, ci):
+    from .lib_std import as_iter, _into_iter, IterBase
+    src = args[0]
+    it = src if isinstance(src, IterBase) else _into_iter(m, [src], ci)
+    futs = []
+    while True:
+        x = it.next(m)
+        if x is None:
+            break
+        futs.append(x)
+    return JoinAllFut(futs, ci.name.endswith('try_join_all'))
